@@ -25,11 +25,15 @@ Scope: per type a pool of K hand-built rows with field widths 1..long, every tab
 pieces in front / in the middle / at the end; FASTA lengths around multiples of the line width (80, and subclasses with
 widths 1, 2, 3, 7 at every length 1..2W+2); sequence alphabets; chromosome as StringEncoding; integer boundaries
 10^k-1, 10^k (k<=14) and, as its own region, |v| >= 10^15-1; file suffixes and mode spellings; grouped_stream as the
-stream; a seeded sample of 4..6-row tables above the bounds; row selections of 3..6-row tables of every type (every
+stream; a seeded sample of 4..6-row tables above the bounds; float columns (BedGraph, NarrowPeak, custom float column) holding
+doubles of every shape of their shortest decimal text - 1..17 significant digits x sign x positional / two-digit /
+three-digit exponent up to the limits of the double range, text length 3..24 - and a seeded sample of doubles drawn by bit
+pattern, plus, as its own region, values below the smallest normal double (see float_family); row selections of 3..6-row tables of every type (every
 index list / mask / slice of 3-row tables) and histories of writes of one object (see derived_family, history_family).
 
 Failure signatures name the class of the fault, found by re-running neighbouring cases (`classify_write`): a failure of
-the single plain write is `canonical-bytes:<type | variant=.. | bigint | delimited>`, one that needs the pieces is
+the single plain write is `canonical-bytes:<type | variant=.. | bigint | long-float | float-subnormal | delimited>` (long-float: a float whose shortest
+text is longer than 16 characters, and the same table with short float values is fine), one that needs the pieces is
 `pieces-differ:<mode>[:gz-only][:<type>]`, header faults are `header-not-once:<mode>[:gz-only]:<missing|repeated|..>`.
 Faults that need a derived / re-used table object (the same rows as freshly built tables are fine):
 `row-selection:[lazy:][empty:]<type | any-type>`, `rewrite-same-table:[lazy:][<mode>:]<type | any-type>` (any-type: the
@@ -338,9 +342,9 @@ def float_region(rows):
     decimal text that parses back to it (repr) is longer than LONG_FLOAT characters - 16..17 significant digits, or 15
     together with a sign / an exponent / leading zeros (up to 24 characters: '-1.2345678901234567e-100')"""
     vals = [v for r in rows for v in r if isinstance(v, float) and v == v and abs(v) != float("inf")]
-    if any(0 < abs(v) < ref.MIN_NORMAL for v in vals):
-        return ":float-subnormal"
-    return ":long-float" if any(len(repr(v)) > LONG_FLOAT for v in vals) else ""
+    if any(len(repr(v)) > LONG_FLOAT for v in vals):
+        return ":long-float"
+    return ":float-subnormal" if any(0 < abs(v) < ref.MIN_NORMAL for v in vals) else ""
 
 
 def _short_floats(rows):
@@ -1626,7 +1630,8 @@ def run(tier="quick", seed=0):
                     "empty strings, negative ints, floats) and 3-row tables (quick: K*K Latin-square sample; thorough: all K^3) "
                     "x every composition of the rows into pieces (+ empty pieces) x {successive writes, stream of chunks, "
                     "'w' then 'a'} x {plain, gzip}; plus integer boundaries, suffixes, mode spellings, lazily read tables with one "
-                    "column replaced, read_chunks streams, grouped streams, FASTA widths 1/2/3/7, seeded 4..6-row sample; per type row "
+                    "column replaced, read_chunks streams, grouped streams, FASTA widths 1/2/3/7, seeded 4..6-row sample; float columns over "
+                    "doubles of every text shape (significant digits x sign x exponent form, text length 3..24) + seeded doubles by bit pattern; per type row "
                     "selections (reverse, permutation, mask, stride, tail, repeat, empty, rotate, composed; all index lists / masks / "
                     "slices of 3-row tables) of built and of read tables, and histories that write one table object (and its "
                     "selections) several times with the frame condition 'table unchanged'.  distinct = distinct (type, variant, rows, split, mode, target); "
@@ -1637,7 +1642,12 @@ def run(tier="quick", seed=0):
                   "fasta_lengths": fasta_lengths(tier), "fasta_width": [fasta_width(), 1, 2, 3, 7], "fastq_lengths": FASTQ_LENGTHS[:K],
                   "int_boundaries": "10^k-1, 10^k for k=1..14, 2^31, 2^32, 2^53 (+-1); region bigint: |v| >= 10^15-1 up to int64 limits",
                   "splits": "all compositions + empty piece first/last/middle", "modes": ["one", "multi", "stream", "append", "grouped (small family)"],
-                  "targets": ["plain", "gzip"], "float_tolerance": "1e-9 relative",
+                  "targets": ["plain", "gzip"], "float_tolerance": "1e-9 relative (of the smallest normal double below it)",
+                  "float_values": "%d doubles: mantissas %s x 10^%s x sign, finite and normal; %d subnormal; seeded sample of %d doubles "
+                                  "by bit pattern; in BedGraph / NarrowPeak / custom tsv,csv tables: one write + read back, pieces, gz, "
+                                  "lazy read-modify-write%s" % (len(float_values()), FLOAT_MANTISSAS, FLOAT_EXPONENTS, len(SUBNORMALS),
+                                                                480 if tier == "thorough" else 96,
+                                                                "; every value as a 1-row table, neighbours as 2-row tables" if tier == "thorough" else ""),
                   "row_selections": "tables of 5 rows (thorough: 3..6), %d selection shapes; all index lists (length 1..n), masks and "
                                     "slices (step +-1, +-2%s) of 3-row tables%s; source built | read from file"
                                     % (len(selections(5, 2 if tier == "thorough" else 1)), ", +-3" if tier == "thorough" else "",
